@@ -143,6 +143,7 @@ func c03Ambiguous(rng *rand.Rand) *c03Case {
 	p := &ra.Program{Lane: "ambiguity", Files: ra.Files{Include: map[string]string{}, Exclude: map[string]string{}}}
 	p.Files.Include["inc"] = "xa\nyb\nzba\nwab\n##! comment\nplain\n"
 	p.Files.Include["other"] = "otherword\n"
+	p.Files.Include["marks"] = "nc~@\nsh@~\nid~\nps@\n"
 	p.Files.Include["dups"] = "wget\ncurl\nwget\nnc\ncurl\nsocat\nwget\nzsh\n"
 	p.Files.Exclude["exc"] = "plain\n"
 	var ls []string
@@ -171,7 +172,8 @@ func c03Ambiguous(rng *rand.Rand) *c03Case {
 			"##!> define late {{d0}}", "{{late}}", g.WordList(1)[0],
 			"##! + i", "##! +s flag is set elsewhere", "##! ^ anchors the match", "##! $ is matched literally in the next entry", "##!  $", "##! > include inc", "##! >assemble", "##! < end", "##! => marker", "##! =< store",
 			"##!\t+ i", "##! + x",
-			"##!> include-except dups exc", "##!> include-except dups other -- t T", `cmd[\s -/]arg`, `[\s -/]`, `[\s!-/]x`, `a[^\s -~]`, `\s`, `[\s]+`))
+			"##!> include-except dups exc", "##!> include-except dups other -- t T", "##!^ {{d0}}", "##!$ {{d1}}", "##!^ \\b{{d2}}", "##!$ {{d0}}{{d1}}",
+			`##!> include marks -- @ "" ~ [^\s]`, `##!> include-except marks exc -- ~ "" @ X`, `##!> include marks -- @ A ~ ""`, `cmd[\s -/]arg`, `[\s -/]`, `[\s!-/]x`, `a[^\s -~]`, `\s`, `[\s]+`))
 	}
 	p.Main = strings.Join(ls, "\n") + "\n"
 	return &c03Case{Kind: "generate", Prog: p, Lane: "ambiguity"}
@@ -184,7 +186,7 @@ func init() {
 		Rule: "every case is executed K times (quick 12, thorough 40) in fresh processes on byte-identical inputs, with varying TZ and working directory: (a) `regex generate -` on programs of an ambiguity lane (lines that more than one directive pattern could claim, 1..4 suffix-replacement pairs with chains and keys that are suffixes of each other, 2..8 definitions nested to depth 4 in shuffled order, flag sets written in any order with repeats) and on programs of the C01 lanes and the include / include-except / definition generators; (b) format --all, update --all, compare --all (text and github) and single-target forms on K copies of a generated CRS tree. " +
 			"Oracle: stdout bytes, exit status and (for tree commands) the resulting snapshot are identical in all K executions. The hook log shows which map iteration orders the K runs actually went through; a generate case is non-trivial only if >= 2 distinct internal orders were observed while the outcome stayed the same (with two equally likely outcomes the chance that K runs agree by luck is 2^(1-K)).",
 		Cases: func(env *core.Env, rng *rand.Rand) []core.Case {
-			n := env.N(150, 1000)
+			n := env.N(300, 1500)
 			var cs []core.Case
 			g := &ra.Gen{R: rng, O: ra.Opts{Cmdline: true, Flags: true, Affixes: true, Upper: true}}
 			for i := 0; i < n; i++ {
